@@ -794,3 +794,22 @@ def model_table_terms(lines):
         memo[k] = t
         return t
     return sorted(term_of(k) for k in recs), [ref(x) for x in rets]
+
+
+def attr_mismatches(top, attrs):
+    """Every executable node of the built table — written in the top DAG's own body or spliced in from a DAG it calls, at
+    any depth — must carry the attributes its function was DECLARED with (priority, is_sequential, resource)."""
+    out = []
+    for id_, node in top.exec_nodes.items():
+        if type(node).__name__ != "LazyExecNode":
+            continue
+        q = getattr(node.exec_function, "__qualname__", "?")
+        f = "pair" if q == "pair_unpacked2" else q
+        a = attrs.get(f)
+        if a is None or f in TWZ_BUILTINS or f in OPS:
+            continue      # tawazi's own nodes (and_, or_, not_, operators) carry tawazi's attributes
+        got = (node.priority, bool(node.is_sequential), node.resource)
+        want = (a.get("prio", 0), bool(a.get("seq", False)), a.get("res", Resource.thread))
+        if got != want:
+            out.append((id_, f, repr(got), repr(want)))
+    return out
